@@ -81,7 +81,15 @@ def build_record(rs):
     from flow.record import GroupedRecord
 
     if "group" in rs:
-        return GroupedRecord(rs["group"], [build_record(m) for m in rs["members"]])
+        members = [build_record(m) for m in rs["members"]]
+        how = rs.get("members_as")  # the constructor takes any iterable of records
+        if how == "generator":
+            members = (m for m in members)
+        elif how == "tuple":
+            members = tuple(members)
+        elif how == "map":
+            members = map(lambda m: m, members)
+        return GroupedRecord(rs["group"], members)
     desc = descriptor(rs["name"], rs["fields"], rs.get("via"))
     vals = [build_value(v) for v in rs.get("values", [])]
     meta = {"_generated": lit.ev(GEN)}
